@@ -123,6 +123,7 @@ func c19Layouts() []c19Layout {
 		{"trailing-comment-newline", func(r *rand.Rand) string { return gen.Pick(r, []string{" ", "\n"}) }, "", "\n;; trailing comment\n"},
 		{"trailing-comment-no-newline", func(r *rand.Rand) string { return gen.Pick(r, []string{" ", "\n"}) }, "", "\n;; trailing comment without newline"},
 		{"trailing-comment-same-line", func(r *rand.Rand) string { return " " }, "", " ; end"},
+		{"dollar-comment", func(r *rand.Rand) string { return gen.Pick(r, []string{" ", "\n"}) }, ";; $Revision: 1.4 $\n;; $TODO tidy up\n", "\n"},
 		{"blank-lines", func(r *rand.Rand) string { return gen.Pick(r, []string{" ", "\n\n\n", "\n"}) }, "\n\n", "\n\n"},
 	}
 }
